@@ -95,7 +95,7 @@ def simulate_bars(case):
                 n = int(t[1]); vals = [int(x) for x in t[2:]]; D = {}; q = 0
                 for i in range(n):
                     for j in range(i): D[(j, i)] = vals[q]; q += 1
-            elif t[0] == 'run' and n <= 6:
+            elif t[0] == 'run':
                 dim = min(int(t[2]), n - 2); thr = None if t[3] == 'inf' else int(t[3])
                 edges = {e: v for e, v in D.items() if thr is None or v <= thr}
                 out.append(' ' + pyph.show_bars([b for b in pyph.bars_simplicial(pyph.flag_complex(n, edges, maxdim=dim + 1), 2) if b[0] <= dim]))
